@@ -3,7 +3,8 @@
 (* (new / send / call / ret, recorded with up to 12 services, more kinds of   *)
 (* signals and trailing signals arriving in the middle of the shutdown) must  *)
 (* be a behaviour of SignalHandler.tla.  "send" is the notifier putting a     *)
-(* signal into the channel, "call i" is service i's Shutdown being invoked,   *)
+(* signal into the channel, "add" is an Add call with the services passed,    *)
+(* "handle" the call of Handle, "call i" is service i's Shutdown being invoked, *)
 (* "ret" is Handle returning its status.  The handler taking a signal out of  *)
 (* the channel is not observable: Receive is a silent step, so acceptance is  *)
 (* judged by the high-water mark of the trace index (TLC register 1).         *)
@@ -16,7 +17,7 @@ tvars == <<svars, l>>
 
 Ev == Trace[l]
 
-TInit == /\ SNew(0, <<>>) /\ script = <<>>
+TInit == /\ SNew(0, <<>>, <<>>) /\ script = <<>>
          /\ l = 1
          /\ TLCSet(1, 0)
 
@@ -24,15 +25,19 @@ Mark(k) == TLCSet(1, IF TLCGet(1) < k THEN k ELSE TLCGet(1))
 
 TNewS == /\ Ev.ev = "new"
          /\ n' = Ev.n /\ outcome' = Ev.outcome
-         /\ sent' = 0 /\ chan' = <<>> /\ phase' = "waiting" /\ idx' = 0 /\ failed' = FALSE
+         /\ sent' = 0 /\ chan' = <<>> /\ phase' = "registering" /\ idx' = 0 /\ failed' = FALSE
          /\ calls' = [i \in 1..Ev.n |-> 0] /\ order' = <<>> /\ status' = -1
-         /\ UNCHANGED script
+         /\ regOwn' = <<>> /\ regLen' = 0 /\ regAlias' = FALSE
+         /\ UNCHANGED <<script, plan, plan0, mem>>
+(* Add(svcs...): ids are the services passed, as they were when Add was called. *)
+TAdd == Ev.ev = "add" /\ AddGroup(Ev.ids)
+THandle == Ev.ev = "handle" /\ StartHandle
 TSend == Ev.ev = "send" /\ Send(Ev.sig)
 TCall == Ev.ev = "call" /\ Ev.i \in 1..n /\ ShutdownOne(Ev.i)
 TRet  == Ev.ev = "ret" /\ Return /\ status' = Ev.status
 
 TLogged == /\ l <= Len(Trace)
-           /\ (TNewS \/ TSend \/ TCall \/ TRet)
+           /\ (TNewS \/ TAdd \/ THandle \/ TSend \/ TCall \/ TRet)
            /\ l' = l + 1
            /\ Mark(l)
 TSilent == Receive /\ UNCHANGED l
@@ -44,6 +49,7 @@ TSpec == TInit /\ [][TNext]_tvars
 TAtMostOnce == AtMostOnce
 TReverseOrder == ReverseOrder
 TAtReturn == AtReturn
+TRegistered == (phase # "registering") => (RegValue = Ident(n))
 (* ShutdownSent of SignalHandler.tla refers to the script; here: nothing is   *)
 (* called while the handler still waits.                                      *)
 TNothingWhileWaiting == phase = "waiting" => order = <<>>
